@@ -129,7 +129,7 @@ SCALAR_GOOD = {
     "float": [0.0, 0.5, 2, -1.5],
 }
 SCALAR_BAD = {
-    "int": ["x", 1.5, None, ["list", [1]]],
+    "int": ["x", 1.5, None, ["list", [1]], 0.0, 1.0, 2.0, 5.0],  # incl. floats that compare equal to conforming ints
     "str": [1, None, ["list", ["a"]]],
     "float": ["x", None],
 }
@@ -274,6 +274,8 @@ PREPARERS = {
     "str": ["strip"],
     "list": ["cast_list"],
     "float": ["abs"],
+    # a preparer that changes nothing still is a user callback that can fail (fault plans target it)
+    "spec": ["noop"], "dict": ["noop"], "set": ["noop"], "keyedlist": ["noop"], "keyedset": ["noop"],
 }
 ITEM_PREPARERS = {"int": ["abs"], "str": ["strip"], "float": ["abs"]}
 
@@ -409,7 +411,7 @@ def gen_world(src, profile):
                 continue
             for a in c["attrs"]:
                 T = a["type"]
-                if T[0] in PREPARERS and src.chance(1, 4):
+                if T[0] in PREPARERS and src.chance(1, 3 if T[0] == "spec" else 4):
                     c.setdefault("prepare", {})[a["name"]] = src.pick(PREPARERS[T[0]])
                 if is_collection(T) and elem_type(T)[0] in ITEM_PREPARERS and src.chance(1, 3):
                     c.setdefault("prepare_item", {})[a["name"]] = src.pick(ITEM_PREPARERS[elem_type(T)[0]])
@@ -434,6 +436,10 @@ def gen_world(src, profile):
             if extra:
                 x = src.pick(extra)
                 r["attrs"].append({"name": x[0], "type": x[1], "default": gen_default(src, x[1])})
+            if profile.get("subclass_dnc") and src.chance(1, 2):
+                cands = [a["name"] for a in attrs if is_collection(a["type"]) or a["type"][0] == "spec"]
+                if cands:
+                    r["opts"]["do_not_copy"] = [src.pick(cands)]
             world["classes"].append(r)
             inst = "R"
     world["instance_class"] = inst
@@ -612,6 +618,13 @@ class World:
                     world.tick("post_copy", "M")
 
                 ns["__post_copy__"] = __post_copy__
+            if c.get("post_init_deepcopy"):
+                def __post_init__(self):
+                    import copy as _copy
+
+                    self.twin = _copy.deepcopy(self)  # a copy taken while construction is still in progress
+
+                ns["__post_init__"] = __post_init__
             if c.get("user_new"):
                 def __new__(cls, *args, **kwargs):
                     inst = object.__new__(cls)
@@ -720,6 +733,8 @@ def apply_preparer(how, v):
         return v.strip() if isinstance(v, str) else v
     if how == "cast_list":
         return list(v) if isinstance(v, tuple) else v
+    if how == "noop":
+        return v
     if how == "bad_if_5":
         return "BAD" if v == 5 and not isinstance(v, bool) else v
     raise AssertionError(how)
